@@ -28,6 +28,10 @@ func genC02(g *Gen, n int) {
 		c20Emit(g, "modfile.parsework nofix "+h, nt, "boundary")
 	}
 	for g.st.Ops < n {
+		if g.Chance(6) {
+			c20LeafOps(g) // AutoQuote / Quote / Unquote / TrimSpace … on their own
+			continue
+		}
 		s, tag := c20GenInput(g.Rand)
 		nt := c20Nontrivial(s)
 		h := hx(s)
